@@ -288,23 +288,30 @@ def run(work, tier, replay=None):
                     mc_runs.append(dict(K="ConnSend S=%d %s" % (cs, name), Q=cn, distinct=r.get("distinct", 0), generated=r.get("generated", 0), violated=None))
                 else:
                     leads.append(dict(design="%s S=%d N=%d" % (name, cs, cn), refuted=dead))
-        # the frame path (FrameFlow.tla): the design of the code (parked updates are flushed through the member's bounded
-        # queue under the frame lock) has a deadlock - the open finding D11, replayed by scenarios/l2_D11_* - and a
-        # design that hands them over directly has none
+        # the frame path (FrameFlow.tla): parked updates are flushed through the member's bounded queue under the frame lock.
+        # The repaired code (the queue is consumed while HandleDisconnect runs) has no deadlock for connections that end; the
+        # code before the repair is refuted (D11, replayed by scenarios/l2_D11_*); a design that hands parked updates over
+        # directly has none at all.  With session switches the model still deadlocks (the handler leaves the old session inside
+        # handleMessage): a lead that was not reproduced on the real server - recorded, not claimed.
+        model_leads = []
         for (fq, fn) in ([(2, 6)] if tier == "quick" else [(2, 6), (3, 8), (4, 9)]):
-            for flush, good in (("direct", True), ("queue", False)):
-                cfg = ('SPECIFICATION Spec\nCONSTANTS\n  Q = %d\n  N = %d\n  Flush = "%s"\nINVARIANTS TypeOK NoCallAfterCancel\n'
-                       'PROPERTIES HandlerReturns\n' % (fq, fn, flush))
+            for flush, drain, sw, kind, name in (("queue", True, False, "good", "code, connections that end"), ("direct", False, True, "good", "direct hand-over"),
+                                                 ("queue", False, False, "refuted", "no_drain_while_leaving(D11)"),
+                                                 ("queue", True, True, "lead", "switch of session with a full queue")):
+                cfg = ('SPECIFICATION Spec\nCONSTANTS\n  Q = %d\n  N = %d\n  Flush = "%s"\n  DiscDrain = %s\n  Switches = %s\n'
+                       'INVARIANTS TypeOK NoCallAfterCancel\nPROPERTIES HandlerReturns\n' % (fq, fn, flush, str(drain).upper(), str(sw).upper()))
                 r = work.tlc("frameflow", "FrameFlow", cfg, workers=4, timeout=900, dump=False)
                 if r.get("timeout"):
                     raise Inconclusive("FrameFlow model check timed out")
                 dead = ("Deadlock" in open(r["log"]).read()) or ("violated" in r)
-                if good:
+                if kind == "good":
                     if dead or "error" in r:
-                        raise Inconclusive("TLC refutes the direct hand-over design on FrameFlow (Q=%d, N=%d)" % (fq, fn))
-                    mc_runs.append(dict(K="FrameFlow Q=%d direct" % fq, Q=fn, distinct=r.get("distinct", 0), generated=r.get("generated", 0), violated=None))
+                        raise Inconclusive("TLC refutes the frame path (%s) on FrameFlow (Q=%d, N=%d)" % (name, fq, fn))
+                    mc_runs.append(dict(K="FrameFlow Q=%d %s" % (fq, name), Q=fn, distinct=r.get("distinct", 0), generated=r.get("generated", 0), violated=None))
+                elif kind == "refuted":
+                    leads.append(dict(design="%s Q=%d N=%d" % (name, fq, fn), refuted=dead))
                 else:
-                    leads.append(dict(design="frame_flush_through_queue(D11, open) Q=%d N=%d" % (fq, fn), refuted=dead))
+                    model_leads.append(dict(design="%s Q=%d N=%d" % (name, fq, fn), deadlock_in_the_model=dead, reproduced_on_the_code=False))
         if not all(l["refuted"] for l in leads):
             raise Inconclusive("a design known to be wrong is not refuted by the specification: %s" % [l["design"] for l in leads if not l["refuted"]])
         work.log("ConnLife: %s; unrepaired designs refuted: %s" % (
@@ -438,12 +445,13 @@ def run(work, tier, replay=None):
     coverage = dict(states=sum(m["distinct"] for m in mc_runs) or 1, transitions=sum(m["generated"] for m in mc_runs) or 1,
                     traces_validated_against_impl=nh, events=nev, scenarios=len(scs), classes=len(CLASSES), life_points=LIFE,
                     connlife_runs=mc_runs, unrepaired_designs_refuted=(leads if not replay else []),
+                    model_leads_not_reproduced=(model_leads if not replay else []),
                     samples=[dict(scenario=scs[0]["sid"], ops=scs[0]["ops"][-6:], events=results[scs[0]["sid"]]["events"][-8:])],
                     problems=[dict(sid=s["sid"], what=b) for s, b in problems][:20])
     write_evidence(work, "model_checking", coverage,
                    ["'all byte sequences' is an input space: the specification contributes the frame classes (decodable with/without core handler, junk) and the oracle; bytes inside a class are seeded samples",
                     "real time: idle timeout 250 ms, frames 2 ms; a wedge is reported only when a handler has not returned 3 s after every client is gone and the goroutine profile still shows it",
-                    "send path and frame path: ConnSend.tla / FrameFlow.tla are checked exhaustively for small queue capacities (3-6 instead of 512, 2-4 instead of 256); their binding to the code is the replay of their counterexamples as wire-level scenarios (stalled member reset / stalled for good / full scheduler queue), with the victim's main loop held for 0-400 ms at the entry of HandleDisconnect to place the schedule; the repaired designs are accepted, the three earlier designs and the frame design of the code (open finding D11) must stay refuted",
+                    "send path and frame path: ConnSend.tla / FrameFlow.tla are checked exhaustively for small queue capacities (3-6 instead of 512, 2-4 instead of 256); their binding to the code is the replay of their counterexamples as wire-level scenarios (stalled member reset / stalled for good / full scheduler queue), with the victim's main loop held for 0-400 ms at the entry of HandleDisconnect to place the schedule; the repaired designs are accepted, the earlier designs (D19, D20, D11) must stay refuted; the deadlock FrameFlow still has on the session-switch path is a lead that was not reproduced on the code",
                     "the server runs in the harness process; inputs known to exhaust memory (finite but huge ground-plane coordinates) are excluded and listed as a finding"],
                    violations=len(violations))
     for kf in known:
